@@ -187,10 +187,13 @@ def e2_product(run, acc, inst, cfgs, extra_ops=(), observers=(), budget=3000000,
 
 
 # ----------------------------------------------------------------------------- E3
+OBSERVER_OPS = ("xml", "dot", "debug", "display", "vprint", "inspect", "truncload")
+
+
 def calls_of_trace(events):
     calls = []
     for (_, e) in events:
-        if e["op"] in ("reset", "end"):
+        if e["op"] in ("reset", "end") or e["op"] in OBSERVER_OPS:
             continue
         c = {k: v for k, v in e.items() if k not in ("obs", "ret", "panic", "same", "t", "msg", "missed", "direct", "mirror")}
         if e.get("mirror"):
@@ -232,8 +235,11 @@ def e3_drive(run, acc, plan, shapes=None, label="E3"):
                 traces = vlib.split_traces(out)
             evs = [(ln, e) for (ln, e) in traces.get(t, []) if ln <= line]
             meta = next((m for m in metas if m["t"] == t), {})
+            rp = {"n": n, "cap": meta.get("cap"), "calls": calls_of_trace(evs)}
+            if evs and evs[-1][1]["op"] in OBSERVER_OPS:
+                rp["observer"] = evs[-1][1]["op"]
             acc.fails.append({"prop": prop, "what": what, "source": f"{label} trace profile={meta.get('profile')} seed={meta.get('seed')} N={n}",
-                              "replay": {"n": n, "cap": meta.get("cap"), "calls": calls_of_trace(evs)}, "sig": ""})
+                              "replay": rp, "sig": ""})
         if st["traces"] and not acc.samples_has("E3"):
             tr = vlib.split_traces(out)
             first = sorted(tr)[1] if len(tr) > 1 else sorted(tr)[0]
@@ -584,6 +590,13 @@ def plan_export(run, prop, tier):
     for r in acc.e2:
         if not r.get("crashed") and not r.get("observer_checks"):
             raise ToolError("vacuity: no observer check executed")
+    # E3: the same observers every 25 calls of long histories at the real limits (N-label vertices, 14 groups, capacity 256)
+    s = vlib.seed()
+    op = [dict(profile="observe", n=2, cap=24, steps=2500, seed=s * 100 + 81, window=10),
+          dict(profile="observe", n=16, cap=256, steps=2500, seed=s * 100 + 82, window=40)]
+    if tier == "thorough":
+        op += [dict(profile="observe", n=n, cap=cap, steps=8000, seed=s * 1000 + 800 + i, window=w) for i, (n, cap, w) in enumerate([(1, 12, 8), (3, 32, 14), (4, 64, 24), (8, 128, 40), (16, 64, 60)])]
+    e3_drive(run, acc, op, label="E3 observers")
     return acc
 
 
@@ -1019,6 +1032,12 @@ def replay(run, prop, path):
             return 1
         print(f"replay: property {prop} holds on this case now (verdicts: {sorted(set(verdicts))})")
         return 0
+    if rp.get("cut"):
+        rp = dict(rp, then={"op": "truncload"})          # every cut position again
+    elif j.get("signature", "").startswith("observer:") or rp.get("observer"):
+        rp = dict(rp, then={"op": "observe", "what": []})
+    if rp.get("asan"):
+        print("note: this history was found under AddressSanitizer; the replay runs it in the plain harness (re-run ./check C07 for the sanitizer)")
     cf = run.fresh("calls", ".json")
     json.dump(rp, open(cf, "w"))
     out = run.fresh("replay", ".ndjson")
